@@ -251,7 +251,7 @@ theorem scrape_resp_roundtrip (files : List (List Nat × Nat × Nat × Nat)) (h 
     fileOfKV files (by
       intro x hx
       simp [fileOfKV, jStr20_ser20 _ (h.2 x hx), stats_roundtrip, bind, Option.bind])
-  simp only [Option.bind_eq_bind, Option.bind_some, e1, filesOfJ, e2, pure]
+  simp only [Option.bind_eq_bind, Option.bind_some, e1, filesOfJ, e2, pure, Option.map_some, dedupLast_of_nodup _ h.1]
 
 theorem error_resp_roundtrip (reason : List Nat) (a : Option Nat) (i : Option (List Nat))
     (h : (OutMsg.error reason a i).wf) :
